@@ -28,14 +28,16 @@ TWrite ==
      /\ IF TooLarge(layer, Len(p))
         THEN /\ e.res = "err" /\ acc = <<>>            \* refused, nothing written
              /\ frame' = <<>> /\ off' = 0 /\ outbuf' = outbuf /\ wres' = "err" /\ wphase' = "done"
-        ELSE /\ frame' = FrameOf(layer, p)
-             /\ off' = Len(acc)
-             /\ outbuf' = outbuf \o acc
-             /\ wres' = e.res /\ wphase' = "done"
-             \* the stream failed => the call reports an error (never swallowed)
-             /\ e.failed => e.res = "err"
-             \* an error is only allowed when the stream failed or answered Ok(0)
-             /\ e.res = "err" => (e.failed \/ e.zero)
+        ELSE \/ /\ wres = "err" /\ e.res = "err" /\ acc = <<>> /\ ~e.failed      \* after a failed write a writer may refuse to go on
+                /\ frame' = <<>> /\ off' = 0 /\ outbuf' = outbuf /\ wres' = "err" /\ wphase' = "done"
+             \/ /\ frame' = FrameOf(layer, p)
+                /\ off' = Len(acc)
+                /\ outbuf' = outbuf \o acc
+                /\ wres' = e.res /\ wphase' = "done"
+                \* the stream failed => the call reports an error (never swallowed)
+                /\ e.failed => e.res = "err"
+                \* an error is only allowed when the stream failed or answered Ok(0)
+                /\ e.res = "err" => (e.failed \/ e.zero)
 TNext == TReset \/ (wphase \in {"idle", "done"} /\ TWrite)
 TSpec == TInit /\ [][TNext]_tvars
 =============================================================================
